@@ -64,9 +64,9 @@ br=[l for l in open(f"{V}/mutants/benign/RESULTS.txt").read().splitlines() if l.
 silent=sum(1 for l in br if " MISSED" in l)
 loud=[l for l in br if " MISSED" not in l]
 names=sorted(set(l.split(".patch")[0] for l in br))
-out.append("Changes after which the properties still hold (other label names, another entry-method name, another constant order, spare local slots, reworded diagnostics, exit status 3 instead of a panic, another heap size model incl. one that ignores name lengths, wider addresses in the listing, stdout flushed per print, renamed compound-array temporaries, YAML written with a document-end marker): " + ", ".join(f"`{n}`" for n in names) + ". Each was run against all 17 checks (quick tier).")
+out.append("Changes after which the properties still hold (other label names, another entry-method name, another constant order, spare local slots, reworded diagnostics, exit status 3 instead of a panic, another heap size model incl. one that ignores name lengths, wider addresses in the listing, stdout flushed per print, renamed compound-array temporaries, YAML written with a document-end marker, JSON written pretty-printed, the image assembled in memory and written in one call, heap-log timestamps in microseconds, heap log through a BufWriter, code lines of the listing indented): " + ", ".join(f"`{n}`" for n in names) + ". Each was run against all 17 checks (quick tier).")
 out.append("")
-out.append(f"Result: {silent} check runs silent, {len(loud)} alarms." + (" Alarms: " + "; ".join(loud) if loud else " (Two alarms of the first run were a transient build error and the C10 false alarm of section 9 item 9; both pairs are silent after the fix and are recorded as such in RESULTS.txt.)"))
+out.append(f"Result: {silent} check runs silent, {len(loud)} alarms." + (" Alarms: " + "; ".join(loud) if loud else " (Alarms of earlier runs, all fixed in the machinery and recorded in section 9: the C10 false alarm of item 9 and the listing-layout false alarm of C17/C04 in item 12.)"))
 out.append("")
 text="\n".join(out)+"\n"
 open(f"{V}/SENSITIVITY.md","w").write("# Sensitivity of the checks\n\n(generated by tools/mksensitivity.py; the same tables are embedded in DESIGN.md section 8)\n\n"+text)
